@@ -321,7 +321,10 @@ func sumAbsDLon(verts []orb.Point) float64 {
 	return s
 }
 
-func ringTol(verts []orb.Point) float64 { return relRing * R * R * sumAbsDLon(verts) }
+// ringTol: relative to R^2 * sum|dLon|, plus an absolute floor of 1e-9 m^2. The floor matters only for rings
+// whose longitudes (nearly) coincide, where the area is denormal noise such as 1.7e-256 vs -0 (a thorough run
+// at seed 21 raised exactly that false alarm with a tolerance of 0; see DESIGN Appendix A #15).
+func ringTol(verts []orb.Point) float64 { return relRing*R*R*sumAbsDLon(verts) + 1e-9 }
 
 // checkRing: every rotation x reversal x closed/unclosed spelling of the vertex list.
 func checkRing(verts []orb.Point) error {
